@@ -26,16 +26,23 @@ def contains_term(t, sub):
     return any(s == sub for s in P.walk(t))
 
 
-def _two_pass(ctx, F, fn, pr, fl, main, rule, is_p, is_b, lt_edges, le_edges, assign_blocks, made, ty, by_min=False):
+def _two_pass(ctx, F, fn, pr, fl, main, rule, is_p, is_b, lt_edges, le_edges, assign_blocks, made, ty, by_min=False, min_call=None):
     """the two-pass form of the selection: (1) best = min over all players (`if p < best { best = p }` for every player),
     (2) after that loop, every player's flag is set to (its own index == best).  Returns whether the flag pass has that form;
     problems of pass 1 are reported under `rule`."""
     problems = []
     tails = [t for (t, h) in fn.cfg.back_edges() if h == main.header]
-    if len(assign_blocks) != 1:
+    if min_call is not None:
+        # best = records.iter().map(|r| r.hand.power_index()).min(): checked by the caller; nothing to check in the player loop
+        ab = None
+        inner_lt = []
+    elif len(assign_blocks) != 1:
         raise U(rule, f"expected one `best = p` in the player loop; found {len(assign_blocks)}", fn)
-    ab = assign_blocks[0]
-    if by_min:
+    else:
+        ab = assign_blocks[0]
+    if min_call is not None:
+        pass
+    elif by_min:
         # best = best.min(p) for every player
         if not L.in_every_iteration(fn, main, ab):
             problems.append(("best-update", "`best = best.min(p)` is not executed for every player", ab))
@@ -93,6 +100,8 @@ def _two_pass(ctx, F, fn, pr, fl, main, rule, is_p, is_b, lt_edges, le_edges, as
 
         def is_p2(t):
             s_ = P.strip(t)
+            if min_call is not None and s_[0] == "agg" and s_[1] == "adt:std::option::Option::Some" and len(s_[2]) == 1:
+                s_ = P.strip(s_[2][0])      # `Some(p) == best` against the Option that Iterator::min returns
             if s_[0] == "call" and len(s_[2]) == 1:
                 gfn = F.fns.get(s_[1])
                 if gfn is None or I.getter_field(gfn) is None:
@@ -110,6 +119,8 @@ def _two_pass(ctx, F, fn, pr, fl, main, rule, is_p, is_b, lt_edges, le_edges, as
             why = "the flag loop skips players"
         elif not (fn.cfg.dominates(main.exit_block, lp.header) and main.header not in fn.cfg.reach_from(lp.header)):
             why = "the flag loop does not come after the minimum is complete"
+        elif min_call is not None and not _min_chain_ok(F, fn, pr, min_call, vecs, hand_k, main, lp):
+            why = "the minimum is not taken over the hand index of every collected player before the flag loop"
         elif hand_k is None:
             why = "the evaluated hand is not stored in the player record"
         elif runpass.early_exits(fn, lp):
@@ -142,6 +153,37 @@ def _two_pass(ctx, F, fn, pr, fl, main, rule, is_p, is_b, lt_edges, le_edges, as
         ctx.ok(rule, {"best_init": f"{ty}::MAX", "form": "two-pass: best = min(p); win = (p == best) for every player", "ties": "kept"},
                sample=True)
     return True
+
+
+def _min_chain_ok(F, fn, pr, min_call, vecs, hand_k, main, flag_loop):
+    """min_call = Iterator::min(records.iter().map(|r| r.hand.power_index())) taken after the player loop, before the flag loop"""
+    mb = min_call[3] if len(min_call) > 3 else None
+    if mb is None or not fn.cfg.dominates(main.exit_block, mb) or not fn.cfg.dominates(mb, flag_loop.header) or mb in main.body or mb in flag_loop.body:
+        return False
+    src, chain = L.iterator_chain(min_call[2][0])
+    names = [c.rsplit("::", 1)[-1] for c in chain]
+    if P.strip(src) not in vecs or names.count("map") != 1 or any(n not in ("iter", "into_iter", "map", "deref", "copied") for n in names):
+        return False
+    mp = [x for x in P.walk(min_call[2][0]) if x[0] == "call" and x[1].rsplit("::", 1)[-1] == "map" and len(x[2]) == 2]
+    if len(mp) != 1:
+        return False
+    clo = P.strip(mp[0][2][1], calls=False)
+    if not (clo[0] == "agg" and clo[1].startswith("closure:") and clo[1][len("closure:"):] in F.fns):
+        return False
+    cf = F.fns[clo[1][len("closure:"):]]
+    if cf.cfg.has_loops() or any(b_["term"]["k"] == "switch" for i_, b_ in enumerate(cf.blocks) if i_ in cf.cfg.reachable):
+        return False
+    r = P.strip(P.Prov(cf).local(0))
+    if r[0] == "call" and len(r[2]) == 1:
+        g = F.fns.get(r[1])
+        if g is None or I.getter_field(g) is None:
+            return False
+        h = P.strip(r[2][0])
+    elif r[0] == "field":
+        h = P.strip(r[1])
+    else:
+        return False
+    return h[0] == "field" and h[2] == hand_k and P.strip(h[1]) == ("param", 2)
 
 
 def run(ctx, prefix="C03", set_explanation=True):
@@ -288,79 +330,89 @@ def run(ctx, prefix="C03", set_explanation=True):
             best = (l, P.const_int(inits[0]), ds)
             best_by_min = True
     if best is None:
-        raise U(rule, "running best (init constant, updated with the player's index) not found", fn)
-    bl, binit, bdefs = best
-    ty = fn.local_ty(bl)
-    tmax = {"u8": 255, "u16": 65535, "u32": 2 ** 32 - 1, "u64": 2 ** 64 - 1, "usize": 2 ** 64 - 1}.get(ty)
-    if binit != tmax:
-        ctx.violation(rule, f"{fn.path}|best-init", f"running best starts at {binit}, not at {ty}::MAX: a hand whose index "
-                      f"exceeds it can never win", fn=fn.path, file=fn.file, line=fn.line)
-    b_term = pr.local(bl)
+        # third form: no running best at all; `records.iter().map(|r| r.hand.power_index()).min()` after the player loop
+        mins_ = [(bi, t_) for bi, t_ in fn.calls() if bi in fn.cfg.reachable and I.callee_path(t_) == "std::iter::Iterator::min"]
+        if len(mins_) != 1 or any(I.callee_path(t).startswith("std::collections::HashSet") for _b, t in fn.calls()):
+            raise U(rule, "running best (init constant, updated with the player's index) not found", fn)
+        min_call = pr.call_term(mins_[0][1], mins_[0][0])
 
-    def is_b(t):
-        s = P.strip(t)
-        return s == b_term or s == ("self", bl)
-    lt_edges = I.edges_implying(fn, pr, "Lt", is_p, is_b, F=F)
-    le_edges = I.edges_implying(fn, pr, "Le", is_p, is_b, F=F)
-    assign_blocks = [bi for (bi, si, kind, payload) in bdefs if kind == "rv" and bi in main.body and is_p(pr.rvalue(payload))]
-    if best_by_min:
-        assign_blocks = [bi for (bi, si, kind, payload) in bdefs if bi in main.body]
-    # winner set: the HashSet receiving insert(pos)
-    ins, clr = [], []
-    wset = None
-    for bi, t in fn.calls():
-        if bi not in fn.cfg.reachable or not I.callee_path(t).startswith("std::collections::HashSet"):
-            continue
-        nm = t["callee"].get("name")
-        recv = P.strip(pr.operand(t["args"][0]))
-        if nm == "insert" and pos is not None and P.strip(pr.operand(t["args"][1])) == pos:
-            ins.append(bi)
-            wset = recv
-        if nm == "clear":
-            clr.append((bi, recv))
-    uses_set = any(I.callee_path(t).startswith("std::collections::HashSet") for _b, t in fn.calls())
-    two_pass = wset is None and not uses_set
-    flag_two_pass_ok = None
-    if two_pass:
-        flag_two_pass_ok = _two_pass(ctx, F, fn, pr, fl, main, rule, is_p, is_b, lt_edges, le_edges, assign_blocks, made, ty,
-                                     by_min=best_by_min)
-    elif wset is None or not ins:
-        raise U(rule, "no winners.insert(position) found", fn)
-    else:
-        clr = [bi for bi, r in clr if r == wset]
-        problems = []
-        if len(assign_blocks) != 1 or len(clr) != 1 or not ins:
-            raise U(rule, f"expected one best=p, one clear and at least one insert in the loop; found {len(assign_blocks)}/{len(clr)}/{len(ins)}", fn)
-        ab, cbk = assign_blocks[0], clr[0]
-        if not I.guarded_by(fn, ab, lt_edges, start=main.header):
-            problems.append(("best-update", "`best = p` is not guarded by `p < best`", ab))
-        if not I.guarded_by(fn, cbk, lt_edges, start=main.header):
-            problems.append(("clear", "`winners.clear()` is not guarded by `p < best`", cbk))
-        if not (fn.cfg.dominates(ab, cbk) or fn.cfg.dominates(cbk, ab)):
-            problems.append(("clear-pairing", "`best = p` and `winners.clear()` are on different paths", cbk))
-        for ib in ins:
-            if not I.guarded_by(fn, ib, le_edges, start=main.header):
-                problems.append(("insert", "`winners.insert(i)` is not guarded by `p <= best`", ib))
-        if all(I.guarded_by(fn, ib, lt_edges, start=main.header) for ib in ins):
-            problems.append(("ties", "`winners.insert(i)` only happens under `p < best`: ties are dropped", ins[0]))
-        # an equal hand must always be inserted: every path from a `p == best`-only edge ... (covered by the tie rule and the
-        # new-best rule below for the single-comparison idioms)
-        # a new best must always be inserted: every path from the update back to the loop header passes an insert
-        tails = [t for (t, h) in fn.cfg.back_edges() if h == main.header]
-        r = I.reachable_avoiding(fn, [], start=ab, removed_blocks=ins)
-        if any(t in r for t in tails) and ab not in ins:
-            problems.append(("new-best-inserted", "a path from `best = p` to the next iteration skips `winners.insert(i)`", ab))
-        # a clear must not wipe the new best: no insert before the clear on the update path
-        for ib in ins:
-            if fn.cfg.dominates(ib, cbk) and ib != cbk:
-                problems.append(("insert-before-clear", "the new best is inserted before `winners.clear()`", ib))
-        # p > best must not insert: insert unreachable when all <=-implying edges are removed (same as guarded_by above)
-        if problems:
-            for key, msg, bi in problems:
-                ctx.violation(rule, f"{fn.path}|{key}", msg, fn=fn.path, file=fn.file, line=fn.blocks[bi]["line"],
-                              construct="min-selection: " + key)
+        def is_bm(t):
+            return P.strip(t, calls=False) == min_call
+        two_pass, wset = True, None
+        flag_two_pass_ok = _two_pass(ctx, F, fn, pr, fl, main, rule, is_p, is_bm, [], [], [], made, "u16", min_call=min_call)
+    if best is not None:
+        bl, binit, bdefs = best
+        ty = fn.local_ty(bl)
+        tmax = {"u8": 255, "u16": 65535, "u32": 2 ** 32 - 1, "u64": 2 ** 64 - 1, "usize": 2 ** 64 - 1}.get(ty)
+        if binit != tmax:
+            ctx.violation(rule, f"{fn.path}|best-init", f"running best starts at {binit}, not at {ty}::MAX: a hand whose index "
+                          f"exceeds it can never win", fn=fn.path, file=fn.file, line=fn.line)
+        b_term = pr.local(bl)
+
+        def is_b(t):
+            s = P.strip(t)
+            return s == b_term or s == ("self", bl)
+        lt_edges = I.edges_implying(fn, pr, "Lt", is_p, is_b, F=F)
+        le_edges = I.edges_implying(fn, pr, "Le", is_p, is_b, F=F)
+        assign_blocks = [bi for (bi, si, kind, payload) in bdefs if kind == "rv" and bi in main.body and is_p(pr.rvalue(payload))]
+        if best_by_min:
+            assign_blocks = [bi for (bi, si, kind, payload) in bdefs if bi in main.body]
+        # winner set: the HashSet receiving insert(pos)
+        ins, clr = [], []
+        wset = None
+        for bi, t in fn.calls():
+            if bi not in fn.cfg.reachable or not I.callee_path(t).startswith("std::collections::HashSet"):
+                continue
+            nm = t["callee"].get("name")
+            recv = P.strip(pr.operand(t["args"][0]))
+            if nm == "insert" and pos is not None and P.strip(pr.operand(t["args"][1])) == pos:
+                ins.append(bi)
+                wset = recv
+            if nm == "clear":
+                clr.append((bi, recv))
+        uses_set = any(I.callee_path(t).startswith("std::collections::HashSet") for _b, t in fn.calls())
+        two_pass = wset is None and not uses_set
+        flag_two_pass_ok = None
+        if two_pass:
+            flag_two_pass_ok = _two_pass(ctx, F, fn, pr, fl, main, rule, is_p, is_b, lt_edges, le_edges, assign_blocks, made, ty,
+                                         by_min=best_by_min)
+        elif wset is None or not ins:
+            raise U(rule, "no winners.insert(position) found", fn)
         else:
-            ctx.ok(rule, {"best_init": f"{ty}::MAX", "reset": "p < best", "insert": "p <= best", "ties": "kept"}, sample=True)
+            clr = [bi for bi, r in clr if r == wset]
+            problems = []
+            if len(assign_blocks) != 1 or len(clr) != 1 or not ins:
+                raise U(rule, f"expected one best=p, one clear and at least one insert in the loop; found {len(assign_blocks)}/{len(clr)}/{len(ins)}", fn)
+            ab, cbk = assign_blocks[0], clr[0]
+            if not I.guarded_by(fn, ab, lt_edges, start=main.header):
+                problems.append(("best-update", "`best = p` is not guarded by `p < best`", ab))
+            if not I.guarded_by(fn, cbk, lt_edges, start=main.header):
+                problems.append(("clear", "`winners.clear()` is not guarded by `p < best`", cbk))
+            if not (fn.cfg.dominates(ab, cbk) or fn.cfg.dominates(cbk, ab)):
+                problems.append(("clear-pairing", "`best = p` and `winners.clear()` are on different paths", cbk))
+            for ib in ins:
+                if not I.guarded_by(fn, ib, le_edges, start=main.header):
+                    problems.append(("insert", "`winners.insert(i)` is not guarded by `p <= best`", ib))
+            if all(I.guarded_by(fn, ib, lt_edges, start=main.header) for ib in ins):
+                problems.append(("ties", "`winners.insert(i)` only happens under `p < best`: ties are dropped", ins[0]))
+            # an equal hand must always be inserted: every path from a `p == best`-only edge ... (covered by the tie rule and the
+            # new-best rule below for the single-comparison idioms)
+            # a new best must always be inserted: every path from the update back to the loop header passes an insert
+            tails = [t for (t, h) in fn.cfg.back_edges() if h == main.header]
+            r = I.reachable_avoiding(fn, [], start=ab, removed_blocks=ins)
+            if any(t in r for t in tails) and ab not in ins:
+                problems.append(("new-best-inserted", "a path from `best = p` to the next iteration skips `winners.insert(i)`", ab))
+            # a clear must not wipe the new best: no insert before the clear on the update path
+            for ib in ins:
+                if fn.cfg.dominates(ib, cbk) and ib != cbk:
+                    problems.append(("insert-before-clear", "the new best is inserted before `winners.clear()`", ib))
+            # p > best must not insert: insert unreachable when all <=-implying edges are removed (same as guarded_by above)
+            if problems:
+                for key, msg, bi in problems:
+                    ctx.violation(rule, f"{fn.path}|{key}", msg, fn=fn.path, file=fn.file, line=fn.blocks[bi]["line"],
+                                  construct="min-selection: " + key)
+            else:
+                ctx.ok(rule, {"best_init": f"{ty}::MAX", "reset": "p < best", "insert": "p <= best", "ties": "kept"}, sample=True)
 
     # ---- rule 4 ---------------------------------------------------------------------------
     rule = prefix + ".position-generic"
